@@ -48,7 +48,25 @@ O["C17"] = P("proof", [], T("C17"), "Boolean algebra laws with failures on Spec 
 O["C18"] = P("proof", ["OpsNumeric", "OpsString", "OpsVersion", "Dispatch", "TokenConsts"], T("C18"), "each family a consistent order")
 O["C19"] = P("proof", [], T("C19"), "NestedError model: Original, Error JSON/fallback, Set override, idempotence")
 O["C20"] = P("proof", ["G4", "ParserRules", "TokenConsts"], T("C20", merge(PARSE, LEXG)), "model recogniser = documented grammar (proved); shipped generated code = model (correspondence)")
+ASSUME = {
+ "all": ["the Lean model (Impl layer) is a faithful transcription of the Go code it names: validated by the correspondence of this run, not proved",
+         "the value quotient of DESIGN §1 (F1) is exact while the observer set of the hand-written code is unchanged (tie Observers)",
+         "Go toolchain, standard library and third-party libraries behave as modelled (validated where a model-validation stream exists)"],
+ "C03": ["a decimal literal denotes the binary64 value strconv.ParseFloat yields; int32/int64 attributes are claimed against integer literals only; integers across the int/float64 divide up to 2^53"],
+ "C04": ["literals without backslash escapes; lower-casing = Go's strings.ToLower (every theorem holds for any lower-casing function)"],
+ "C05": ["'outer whitespace' = what strings.TrimSpace removes"],
+ "C07": ["fatal errors of the Go runtime cannot be exhibited by the model; they are only observed (watched child process)"],
+ "C09": ["numeric components below 2^64 (beyond: known finding)"],
+ "C11": ["parser caches (cold/warm) are outside the model; observed only"],
+ "C12": ["calls on private evaluator state are atomic steps in the model; Go-memory-model races are only observed with the race detector"],
+ "C13": ["model values are immutable: aliasing writes are caught only by the deep-snapshot correspondence"],
+ "C15": ["character-level invariance for whole rules is conditional on decidable local conditions (Canon, sepChain) and otherwise backed by the metamorphic correspondence"],
+ "C16": ["calls not ended by a recovered panic; convertible literals; object-shaped paths"],
+ "C19": ["values attached with Set are abstracted to their JSON rendering by encoding/json (or 'not encodable')"],
+ "C20": ["conformance of the generated Go lexer/parser is differential (tokens, accept/reject, tree shape), not a theorem"],
+}
 for pid, o in O.items():
+    o["assumptions"] = ASSUME["all"] + ASSUME.get(pid, [])
     if not EXTRA.get(pid):
         o["pending"] = True
         if o["level"] == "proof":
